@@ -1,19 +1,21 @@
 # run parameters and manifest texts of the C12 check (read by ../props.py)
-PROP = dict(
-    engine="stack", test="TestC12", level="exploration",
-    quick=dict(checks=500, shards=12, timeout=1200),
-    thorough=dict(checks=6000, shards=14, timeout=3400),
-    rule="rapid draws, guided by a reference automaton, a sequence of <=14 moves of one runtime process over {next, response(current id), "
-         "response(previous id), response(garbage id), error(current id), init/error, restore/next, restore/error, unknown route, wrong "
-         "method} interleaved with the platform events {an invocation arrives, restore requested}, in plain and in snapshot mode; the "
-         "generator only excludes a second parked call and platform events outside the protocol; moves are executed strictly one after "
-         "the other (latches; a parking call counts as done once parked). Oracle: the reference automaton (written from the statement and "
-         "the Runtime API documentation) predicts for every call {200 / same invocation on re-poll / 202 / 400 InvalidRequestID / 403 "
-         "InvalidStateTransition / 404 / 405 / stays parked}; refusals must leave the state unchanged, which shows in the answers to all "
-         "later calls; the restore request's result is predicted too. Non-trivial: >=1 refused call followed by >=1 accepted call and "
-         ">=1 delivered invocation.",
-    assumptions=["fake process supervisor (DESIGN 3.4)", "a second submission for the invocation in flight may be refused with 400 or 403"],
-    level_text="model-based random search: generated Runtime API call sequences against the real stack, compared answer by answer with a reference automaton.",
-    level_note="response-mode header variants are outside the alphabet; at most one parked call at a time; no extensions",
-    technique="property-based testing (rapid), stateful model-based: reference lifecycle automaton as oracle and generator guide",
-)
+PROP = {'engine': 'stack',
+ 'test': 'TestC12',
+ 'level': 'exploration',
+ 'quick': {'checks': 500, 'shards': 12, 'timeout': 1200},
+ 'thorough': {'checks': 6000, 'shards': 14, 'timeout': 3400},
+ 'rule': 'rapid draws, guided by a reference automaton, a sequence of <=14 moves of one runtime process over {next, response(current id), '
+         'response(previous id), response(garbage id), error(current id), init/error, restore/next, restore/error, unknown route, wrong method} '
+         'interleaved with the platform events {an invocation arrives, restore requested}, in plain and in snapshot mode; the generator only '
+         'excludes a second parked call and platform events outside the protocol; moves are executed strictly one after the other (latches; a '
+         'parking call counts as done once parked). Oracle: the reference automaton (written from the statement and the Runtime API documentation) '
+         'predicts for every call {200 / same invocation on re-poll / 202 / 400 InvalidRequestID / 403 InvalidStateTransition / 404 / 405 / stays '
+         "parked}; refusals must leave the state unchanged, which shows in the answers to all later calls; the restore request's result is predicted "
+         'too. Non-trivial: >=1 refused call followed by >=1 accepted call and >=1 delivered invocation. Later addition: `warm` (plain mode) - the '
+         'modelled sequence is played by the runtime of a second execution environment: a first runtime took an invocation and exited, the sequence '
+         'starts with the invocation that starts the new runtime.',
+ 'assumptions': ['fake process supervisor (DESIGN 3.4)', 'a second submission for the invocation in flight may be refused with 400 or 403'],
+ 'level_text': 'model-based random search: generated Runtime API call sequences against the real stack, compared answer by answer with a reference '
+               'automaton.',
+ 'level_note': 'response-mode header variants are outside the alphabet; at most one parked call at a time; no extensions',
+ 'technique': 'property-based testing (rapid), stateful model-based: reference lifecycle automaton as oracle and generator guide'}
